@@ -24,20 +24,23 @@ EXTENDS Integers, Sequences, TLC
 CONSTANTS NBlocks, MaxCrashes
 
 VARIABLES disk, phase, next, crashes, log,
-          pending      \* None, or the state whose data pages are (being) written but whose meta page is not
-vars == <<disk, phase, next, crashes, log, pending>>
+          pending,     \* None, or the state whose data pages are (being) written but whose meta page is not
+          script       \* the external events of this life, in order (never changes; a variable so that a recorded trace can supply it)
+vars == <<disk, phase, next, crashes, log, pending, script>>
 
 Empty == [buckets |-> FALSE, index |-> -1, history |-> -1, blocks |-> 0, pool |-> 0]
-\* the script: block k is preceded by the injection of its transaction (then pruned from the pool when confirmed)
-Script == [i \in 1..(2 * NBlocks) |-> IF i % 2 = 1 THEN [ev |-> "inject", k |-> (i + 1) \div 2] ELSE [ev |-> "block", k |-> i \div 2]]
+\* the model-checked script: block k is preceded by the injection of its transaction and a refresh of the pool, and followed
+\* by the removal of invalid pool transactions
+DefaultScript == [i \in 1..(4 * NBlocks) |-> LET k == (i + 3) \div 4 IN
+                   [ev |-> CASE i % 4 = 1 -> "inject" [] i % 4 = 2 -> "refresh" [] i % 4 = 3 -> "block" [] OTHER -> "remove", k |-> k]]
 
 None == [name |-> "none", d |-> Empty]
-Init == disk = Empty /\ phase = "boot1" /\ next = 1 /\ crashes = 0 /\ log = << >> /\ pending = None
+Init == disk = Empty /\ phase = "boot1" /\ next = 1 /\ crashes = 0 /\ log = << >> /\ pending = None /\ script = DefaultScript
 
 \* a commit: first step (data pages), enabled when nothing is pending; second step: WriteMeta below
-Commit(name, d) == pending = None /\ pending' = [name |-> name, d |-> d] /\ UNCHANGED <<disk, log>>
-NoCommit == pending = None /\ UNCHANGED <<disk, log, pending>>
-WriteMeta == pending # None /\ disk' = pending.d /\ log' = Append(log, pending.name) /\ pending' = None /\ UNCHANGED <<phase, next, crashes>>
+Commit(name, d) == pending = None /\ pending' = [name |-> name, d |-> d] /\ UNCHANGED <<disk, log, script>>
+NoCommit == pending = None /\ UNCHANGED <<disk, log, pending, script>>
+WriteMeta == pending # None /\ disk' = pending.d /\ log' = Append(log, pending.name) /\ pending' = None /\ UNCHANGED <<phase, next, crashes, script>>
 Boot1 == phase = "boot1" /\ Commit("CreateBuckets", [disk EXCEPT !.buckets = TRUE]) /\ phase' = "boot2" /\ UNCHANGED <<next, crashes>>
 \* the index and the history are (re)built up to the head when they are behind
 Boot2 == phase = "boot2" /\ Commit("build unspent indexes and init history",
@@ -46,18 +49,21 @@ Boot2 == phase = "boot2" /\ Commit("build unspent indexes and init history",
 Boot3 == phase = "boot3" /\ Commit("visor init", IF disk.blocks = 0 THEN [disk EXCEPT !.blocks = 1, !.index = 0, !.history = 0] ELSE disk)
          /\ phase' = "run" /\ UNCHANGED <<next, crashes>>
 \* events already reflected in the disk are skipped when they are offered again after a restart
-Run == /\ phase = "run" /\ next <= Len(Script)
-       /\ LET e == Script[next] IN
-          IF e.ev = "block" THEN
-             IF e.k < disk.blocks THEN NoCommit
-             ELSE Commit("ExecuteSignedBlock", [disk EXCEPT !.blocks = @ + 1, !.index = @ + 1, !.history = @ + 1, !.pool = 0])
-          ELSE IF e.k < disk.blocks THEN NoCommit
-               ELSE Commit("InjectForeignTransaction", [disk EXCEPT !.pool = 1])
+Run == /\ phase = "run" /\ next <= Len(script)
+       /\ LET e == script[next] IN
+          CASE e.ev = "block" ->
+                 IF e.k < disk.blocks THEN NoCommit
+                 ELSE Commit("ExecuteSignedBlock", [disk EXCEPT !.blocks = @ + 1, !.index = @ + 1, !.history = @ + 1, !.pool = 0])
+            [] e.ev = "inject" ->
+                 IF e.k < disk.blocks THEN NoCommit
+                 ELSE Commit("InjectForeignTransaction", [disk EXCEPT !.pool = 1])
+            [] e.ev = "refresh" -> Commit("RefreshUnconfirmed", disk)            \* validity flags only: the abstract disk is the same
+            [] e.ev = "remove" -> Commit("RemoveInvalidUnconfirmed", disk)       \* nothing in these pools has become invalid
        /\ next' = next + 1 /\ UNCHANGED <<phase, crashes>>
 \* anywhere: between commits, or inside one (what was written of the pending state is lost, the disk is the old state)
 Crash == /\ crashes < MaxCrashes /\ phase # "done"
-         /\ crashes' = crashes + 1 /\ phase' = "boot1" /\ next' = 1 /\ pending' = None /\ UNCHANGED <<disk, log>>
-Finish == phase = "run" /\ next > Len(Script) /\ pending = None /\ phase' = "done" /\ UNCHANGED <<disk, next, crashes, log, pending>>
+         /\ crashes' = crashes + 1 /\ phase' = "boot1" /\ next' = 1 /\ pending' = None /\ UNCHANGED <<disk, log, script>>
+Finish == phase = "run" /\ next > Len(script) /\ pending = None /\ phase' = "done" /\ UNCHANGED <<disk, next, crashes, log, pending, script>>
 Next == Boot1 \/ Boot2 \/ Boot3 \/ Run \/ WriteMeta \/ Crash \/ Finish
 Spec == Init /\ [][Next]_vars /\ WF_vars(Boot1 \/ Boot2 \/ Boot3 \/ Run \/ WriteMeta \/ Finish)
 
@@ -65,7 +71,8 @@ Spec == Init /\ [][Next]_vars /\ WF_vars(Boot1 \/ Boot2 \/ Boot3 \/ Run \/ Write
 Verify(d) == IF ~d.buckets \/ d.blocks = 0 THEN "ok"
              ELSE IF d.history <= d.blocks - 1 /\ d.index <= d.blocks - 1 THEN "ok" ELSE "inconsistent"
 VerifyAlwaysOK == Verify(disk) = "ok"
-Final == [buckets |-> TRUE, index |-> NBlocks, history |-> NBlocks, blocks |-> NBlocks + 1, pool |-> 0]
+NBlocksOf(sc) == LET RECURSIVE C(_) C(i) == IF i = 0 THEN 0 ELSE C(i - 1) + (IF sc[i].ev = "block" THEN 1 ELSE 0) IN C(Len(sc))
+Final == LET n == NBlocksOf(script) IN [buckets |-> TRUE, index |-> n, history |-> n, blocks |-> n + 1, pool |-> 0]
 RecoveredEqualsUncrashed == phase = "done" => disk = Final
 EventuallyDone == <>(phase = "done")
 \* the commit names the node may produce, for validating the recorded commit sequence
